@@ -131,6 +131,9 @@ type RangeIter struct {
 	Vals   []Value
 	Str    *SliceV
 	PosObj int
+	// merged iterator (two arms created different iterators): Next runs on the alternative whose guard holds
+	AltG  []*Term
+	AltIt []*RangeIter
 }
 
 var nilPtr = &PtrC{}
@@ -445,7 +448,11 @@ func mergeValue(c *Term, a, b Value) Value {
 		}
 		return r
 	case *RangeIter:
-		panic(unsupported("merge of diverging range iterators"))
+		y := b.(*RangeIter)
+		if x == y {
+			return x
+		}
+		return &RangeIter{AltG: []*Term{c, Not(c)}, AltIt: []*RangeIter{x, y}}
 	}
 	if isRef(a) && isRef(b) {
 		alts := flatten(c, a, nil)
